@@ -70,7 +70,7 @@ package slog
 // fmt.Sprintf("c/%s[%d]", s.name, n), so the same n always yields the same child (assumed: Sprintf is a
 // function of its arguments, and distinct n print differently).
 //@ func (*Entry).WithSkip
-//@   props C10
+//@   props C10 C14
 //@   assigns everything
 //@   maypanic
 //@   keeps Entry.name, Entry.owner, Entry.useJSON, Entry.useColor, Entry.timeLayout, Entry.modeUTC, Entry.level, Entry.attrs, Entry.writer, Entry.valueStringer, Entry.handlerOpt, Entry.contextKeys
@@ -80,10 +80,10 @@ package slog
 //@   keeps dualWriter.*
 //@   requires s != nil
 //@   requires [INV-tree] forall(m, map[string]*Entry, forall(k, implies(has(m, k), m[k] != nil)))
-//@   ensures [C10.skip] result != nil && result.extraFrames == extraFrames
+//@   ensures [C10.C14.skip] result != nil && result.extraFrames == extraFrames
 //@   ensures [C10.skip-child] implies(fresh(result), result.owner == s && result.level == old(s.level) && result.useJSON == old(s.useJSON) && result.useColor == old(s.useColor))
-//@   at call fmt.Sprintf assert [C10.skip-key] callee.format == "c/%s[%d]" && len(callee.a) == 2 && typeis(callee.a[0], string) && dyn(callee.a[0], string) == s.name && typeis(callee.a[1], int) && dyn(callee.a[1], int) == extraFrames
-//@   at call (*Entry).newChildLogger assert [C10.skip-lookup] callee.s == s && len(callee.args) == 1 && typeis(callee.args[0], string) && contentid(dyn(callee.args[0], string)) == ghost.ioFmt
+//@   at call fmt.Sprintf assert [C10.C14.skip-key] callee.format == "c/%s[%d]" && len(callee.a) == 2 && typeis(callee.a[0], string) && dyn(callee.a[0], string) == s.name && typeis(callee.a[1], int) && dyn(callee.a[1], int) == extraFrames
+//@   at call (*Entry).newChildLogger assert [C10.C14.skip-lookup] callee.s == s && len(callee.args) == 1 && typeis(callee.args[0], string) && contentid(dyn(callee.args[0], string)) == ghost.ioFmt
 
 //@ func (*Entry).Parent
 //@   props C10
@@ -358,7 +358,7 @@ package slog
 //@   at call (*Entry).SetContextKeys assert [C10.forward] fresh(callee.s) && callee.keys == keys
 
 //@ func (*Entry).WithWriter
-//@   props C10
+//@   props C10 C03
 //@   requires s != nil && specFmtInv(s)
 //@   assigns everything
 //@   maypanic
@@ -371,7 +371,7 @@ package slog
 //@   at call (*Entry).SetWriter assert [C10.forward] fresh(callee.s) && callee.wr == wr
 
 //@ func (*Entry).WithErrorWriter
-//@   props C10
+//@   props C10 C03
 //@   requires s != nil && specFmtInv(s)
 //@   assigns everything
 //@   maypanic
